@@ -29,7 +29,9 @@ var csvEols = []string{"\n", "\r", "\r\n", "\n\r"}
 type csvCase struct {
 	Cfg   csvConfig  `json:"c"`
 	Table [][]string `json:"t"`
-	Pick  int        `json:"p"` // selects which separator / quote the writer uses
+	Pick  int        `json:"p"`            // selects which separator / quote the writer uses
+	Force int        `json:"f,omitempty"`  // 1: every field is written quote-encoded, 2: every second one, 0: only those that need it
+	Seol  string     `json:"se,omitempty"` // when set: SetEndOfLine(Seol) is called before the separators and quotes are configured
 }
 
 func csvWrite(cs *csvCase) string {
@@ -45,7 +47,7 @@ func csvWrite(cs *csvCase) string {
 				b.WriteRune(seps[k%len(seps)])
 				k++
 			}
-			if strings.ContainsAny(f, cs.Cfg.Seps+cs.Cfg.Quotes+"\r\n") {
+			if strings.ContainsAny(f, cs.Cfg.Seps+cs.Cfg.Quotes+"\r\n") || cs.Force == 1 || (cs.Force == 2 && (ri+fi)%2 == 0) {
 				q := string(quotes[k%len(quotes)])
 				k++
 				b.WriteString(q + strings.ReplaceAll(f, q, q+q) + q)
@@ -104,15 +106,20 @@ func c09Check(c *mon.Case, csp *csvCase, t *csv.CsvTokenizer, ctx string) bool {
 		return true
 	}
 	var toks []tok
+	var strs []string
 	p := mon.Try(func() {
 		if t == nil {
 			t = csv.NewCsvTokenizer()
+			if cs.Seol != "" {
+				t.SetEndOfLine(cs.Seol)
+			}
 			t.SetQuoteSymbols([]rune{0x7f}) // free the default quote before installing separators
 			t.SetFieldSeparators([]rune(cs.Cfg.Seps))
 			t.SetQuoteSymbols([]rune(cs.Cfg.Quotes))
 		}
 		setOptions(t, optDecodeStrings)
 		toks = tokenizeAll(t, text)
+		strs = t.TokenizeBufferToStrings(text)
 	})
 	if p != nil {
 		if _, ok := p.Val.(mon.NoProgress); ok {
@@ -120,6 +127,15 @@ func c09Check(c *mon.Case, csp *csvCase, t *csv.CsvTokenizer, ctx string) bool {
 		} else {
 			c.FailPanic("CSV tokenizer", p)
 		}
+		return false
+	}
+	// the string-list entry point must deliver the very same values
+	sameStrs := len(strs) == len(toks)
+	for i := 0; sameStrs && i < len(toks); i++ {
+		sameStrs = strs[i] == toks[i].Value
+	}
+	if !sameStrs {
+		c.Failf("TokenizeBufferToStrings does not deliver the values of the token stream"+ctx, "separators=%q quotes=%q text=%q\ntokens  %s\nstrings %q", cs.Cfg.Seps, cs.Cfg.Quotes, text, toksString(toks), strs)
 		return false
 	}
 	var rows [][]string
@@ -192,14 +208,14 @@ func buildC09(cfg *mon.Config) []*mon.Sub {
 		b, _ := json.Marshal(cs)
 		emit(string(b))
 	}
-	oracle := "the harness' own writer emits a field raw iff it contains no separator, quote, CR or LF and otherwise wraps it in one of the configured quotes with that quote doubled, joins fields with one of the configured separators and rows with the line ending; the text is tokenized by a real CsvTokenizer configured with those separators and quotes and string decoding on; regrouping the tokens on separator symbols and end-of-line tokens must give back exactly the rows and fields, and the number of end-of-line tokens must be rows-1; non-trivial = the text contains a quote"
+	oracle := "the harness' own writer emits a field raw iff it contains no separator, quote, CR or LF and otherwise wraps it in one of the configured quotes with that quote doubled, joins fields with one of the configured separators and rows with the line ending; the text is tokenized by a real CsvTokenizer configured with those separators and quotes and string decoding on; TokenizeBufferToStrings must deliver the same values as the token stream; regrouping the tokens on separator symbols and end-of-line tokens must give back exactly the rows and fields, and the number of end-of-line tokens must be rows-1; non-trivial = the text contains a quote"
 	alpha := []string{"a", ",", "\"", "'", "\r", "\n", " ", "é", "ш"}
 	var f1, f2 []string
 	enumStrings(alpha, 1, func(p []string) { f1 = append(f1, joinParts(p)) })
 	enumStrings(alpha, 2, func(p []string) { f2 = append(f2, joinParts(p)) })
 	exh := &mon.Sub{
 		Name:          "exhaustive-small-tables",
-		Rule:          fmt.Sprintf("default configuration (',' and '\"') and the TAB/';' + two-quote configuration: every 1x1 table with a field of length <= %d over {a , \" ' CR LF space é ш}, every 1x2 and 2x1 table of fields of length <= 2, every 2x2 table of fields of length <= 1, each multi-row table with all four line endings; ", cfg.N(4, 5)) + oracle,
+		Rule:          fmt.Sprintf("default configuration (',' and '\"') and the TAB/';' + two-quote configuration: every 1x1 table with a field of length <= %d over {a , \" ' CR LF space é ш}, every 1x2 (also with both fields written quote-encoded whether they need it or not) and 2x1 table of fields of length <= 2, every 2x2 table of fields of length <= 1, each multi-row table with all four line endings; ", cfg.N(4, 5)) + oracle,
 		Exhaustive:    true,
 		DistinctByGen: true,
 		Floor:         1000,
@@ -213,6 +229,7 @@ func buildC09(cfg *mon.Config) []*mon.Sub {
 				for _, a := range f2 {
 					for _, b := range f2 {
 						emitCase(emit, csvCase{Cfg: c1, Table: [][]string{{a, b}}, Pick: len(a)})
+						emitCase(emit, csvCase{Cfg: c1, Table: [][]string{{a, b}}, Pick: len(a), Force: 1})
 						for _, e := range csvEols {
 							c2 := cfgc
 							c2.Eol = e
@@ -239,7 +256,7 @@ func buildC09(cfg *mon.Config) []*mon.Sub {
 	}
 	rnd := &mon.Sub{
 		Name:  "random-tables",
-		Rule:  "seeded tables up to 6x6 with fields up to 12 characters from letters, digits, every separator and quote of the configuration, the quotes of other configurations, CR, LF, blanks, Latin-1, Cyrillic, €, U+FFFE, U+0001, empty fields and fields made only of quotes x six configurations (incl. separator and quote above U+00FF, several separators, several quotes) x four line endings; " + oracle + "; distinct by hash",
+		Rule:  "seeded tables up to 6x6 with fields up to 12 characters from letters, digits, every separator and quote of the configuration, the quotes of other configurations, CR, LF, blanks, Latin-1, Cyrillic, €, U+FFFE, U+0001, empty fields and fields made only of quotes x six configurations (incl. separator and quote above U+00FF, several separators, several quotes) x four line endings; in a third of the cases all or every second field is written quote-encoded although it would not need it (so also empty fields as two quotes), in a quarter SetEndOfLine(one of the four line endings) is called before the separators and quotes are configured; " + oracle + "; distinct by hash",
 		Floor: 1000,
 		Gen: func(emit func(string)) {
 			r := cfg.Rng("c09-random")
@@ -264,7 +281,14 @@ func buildC09(cfg *mon.Config) []*mon.Sub {
 						tb[ri][ci] = b.String()
 					}
 				}
-				emitCase(emit, csvCase{Cfg: cc, Table: tb, Pick: r.Intn(100)})
+				cs := csvCase{Cfg: cc, Table: tb, Pick: r.Intn(100)}
+				if r.Chance(1, 3) {
+					cs.Force = 1 + r.Intn(2)
+				}
+				if r.Chance(1, 4) {
+					cs.Seol = mon.Pick(r, csvEols)
+				}
+				emitCase(emit, cs)
 			}
 		},
 		Exec: c09Exec,
